@@ -324,9 +324,22 @@ class StreamIO:
 
     def close(self):
         """
-        Close connection. Buffered data is sent first.
+        Close connection. Buffered data is sent first, as long as the peer
+        takes some of it within `write_timeout`.
         """
         self.writer.close()
+        if self.write_timeout is not None:
+            self._abort_if_stuck(None)
+
+    def _abort_if_stuck(self, seen):
+        # a closing transport keeps the socket until its buffer is sent: a
+        # peer which takes nothing for `write_timeout` is not waited for
+        size = self.writer.transport.get_write_buffer_size()
+        if size and seen is not None and size >= seen:
+            self.abort()
+        elif size:
+            loop = asyncio.get_running_loop()
+            loop.call_later(self.write_timeout, self._abort_if_stuck, size)
 
     def abort(self):
         """
